@@ -32,6 +32,8 @@ SPECS = {
     "A": dict(mode="Diffuse", spectrum="power", cloud="map", optical=True, radio=True, n=80, altitude=525.0, det_lat=0.3, det_long=-1.0, extra={"simulation": {"tau_shower": {"etau_frac": 0.4}}}),
     "B": dict(mode="Target", spectrum="mono", cloud="mono", optical=True, radio=True, n=600, altitude=33.0, det_lat=-0.2, det_long=0.7, extra={"detector": {"optical": {"quantum_efficiency": 0.35, "telescope_effective_area": 1.5, "photo_electron_threshold": 4.0}, "radio": {"low_frequency": 50.0, "high_frequency": 400.0, "nantennas": 6}}}),
     "C": dict(mode="Diffuse", spectrum="mono", cloud="none", optical=True, radio=True, n=60, altitude=400.0, det_lat=-0.9, det_long=2.5, logE=9.5),
+    # a balloon-altitude detector and energies at which many taus decay above it
+    "D": dict(mode="Diffuse", spectrum="mono", cloud="none", optical=True, radio=True, n=60, altitude=33.0, det_lat=0.5, det_long=1.2, logE=10.5),
 }
 
 
